@@ -79,7 +79,7 @@ fn main() {
     match args[1].as_str() {
         "list" => {
             for p in &props {
-                println!("{}", p.id());
+                println!("{} {} {}", p.id(), p.runs(Tier::Quick), p.runs(Tier::Thorough));
             }
         }
         "check" => {
